@@ -217,3 +217,526 @@ Proof.
   - rewrite Hat0 in H1. destruct (Nat.eqb_spec s i); [discriminate|]. left. auto.
   - rewrite Hlen0 in H1. rewrite Hat0 in H1. destruct (Nat.eqb_spec (nxt n s) i); [discriminate|]. right. auto.
 Qed.
+
+Section RP.
+  Variable hashf : N -> N.
+  Variable swap : nat -> nat -> bool.
+  Variable primes : list N.
+  Variables num den : N.
+  Variable owns : N -> list N.
+  Variables rem_fin null_first : bool.
+  Hypothesis swap_le : forall j p, swap j p = true -> p <= j.
+  Hypothesis swap_ge : forall j p, swap j p = false -> j <= p.
+  Hypothesis ideal_gt : forall n, n < ideal_size primes num den n.
+
+  Local Notation home := (home hashf).
+  Local Notation ideal := (ideal primes num den).
+
+  (* the generic robin-hood invariant for the current slot count *)
+  Definition Core (l : list gslot) : Prop := core N gentry ptr (fun p => home p (length l)) l.
+
+  Lemma home_lt p n : 0 < n -> home p n < n.
+  Proof.
+    intros Hn. unfold RegistryModel.home.
+    assert (H : (hashf p mod N.of_nat n < N.of_nat n)%N) by (apply N.mod_lt; lia).
+    lia.
+  Qed.
+
+  Lemma Core_PW l l' : PW l l' -> Core l -> Core l'.
+  Proof.
+    intros H Hc. unfold Core. rewrite (PW_length _ _ H). eapply PW_core; eauto.
+  Qed.
+
+  Lemma Core_home_lt l i h e : Core l -> at_ l i = Some (h, e) -> h < length l.
+  Proof. intros [_ [Hwf _]] Hat. destruct (Hwf _ _ _ Hat). assumption. Qed.
+
+  (* ---------------------------------------------------------------- 3. mark phase *)
+  Lemma mark_loop_ok (l : list gslot) p : Core l ->
+    forall f i j, i < length l -> length l - j < f ->
+      exists l', mark_loop f l i j p = Some l' /\ PW l l'.
+  Proof.
+    intros Hc. induction f as [|f IH]; intros i j Hi Hf; [lia|]. simpl.
+    destruct (at_ l i) as [[h e]|] eqn:Hat.
+    - destruct (Nat.ltb_spec (dist (length l) i h) j) as [Hd|Hd].
+      + exists l. split; [reflexivity|apply PW_refl].
+      + destruct (N.eqb (ptr e) p && negb (marked e)).
+        * eexists. split; [reflexivity|]. apply PW_upd with (e := e); auto.
+        * pose proof (Core_home_lt _ _ _ _ Hc Hat) as Hh.
+          pose proof (dist_lt (length l) i h Hh Hi).
+          apply IH; [apply nxt_lt; assumption|lia].
+    - exists l. split; [reflexivity|apply PW_refl].
+  Qed.
+
+  (* all fields but the slot array agree *)
+  Definition same_rest (g g' : gc) : Prop :=
+    nitems g' = nitems g /\ mitems g' = mitems g /\ minptr g' = minptr g /\ maxptr g' = maxptr g /\
+    running g' = running g /\ pending g' = pending g /\ evs g' = evs g.
+
+  Lemma same_rest_refl g : same_rest g g.
+  Proof. repeat split. Qed.
+
+  Lemma mark_item_ok g p : Core (slots g) -> nslots g <> 0 ->
+    exists g', mark_item hashf g p = Some (Some g') /\ PW (slots g) (slots g') /\ same_rest g g'.
+  Proof.
+    intros Hc Hn. unfold mark_item.
+    destruct (negb (p mod 8 =? 0)%N || (p <? minptr g)%N || (maxptr g <? p)%N).
+    - exists g. split; [reflexivity|]. split; [apply PW_refl|apply same_rest_refl].
+    - destruct (Nat.eqb_spec (nslots g) 0) as [|_]; [contradiction|].
+      destruct (mark_loop_ok (slots g) p Hc (nslots g + 2) (home p (nslots g)) 0) as [l' [Hl Hpw]].
+      + apply home_lt. unfold nslots in *. lia.
+      + unfold nslots. lia.
+      + unfold nslots in *. rewrite Hl. eexists. split; [reflexivity|]. split; [exact Hpw|repeat split].
+  Qed.
+
+  Lemma mark_words_ok ws : forall g, Core (slots g) -> nslots g <> 0 ->
+    exists g', mark_words hashf g ws = Some (Some g') /\ PW (slots g) (slots g') /\ same_rest g g'.
+  Proof.
+    induction ws as [|w ws IH]; intros g Hc Hn; simpl.
+    - exists g. split; [reflexivity|]. split; [apply PW_refl|apply same_rest_refl].
+    - destruct (mark_item_ok g w Hc Hn) as [g1 [H1 [Hpw1 Hs1]]]. rewrite H1.
+      destruct (IH g1) as [g2 [H2 [Hpw2 Hs2]]].
+      + eapply Core_PW; eauto.
+      + unfold nslots in *. rewrite (PW_length _ _ Hpw1). assumption.
+      + exists g2. split; [exact H2|]. split; [eapply PW_trans; eauto|].
+        unfold same_rest in *. intuition congruence.
+  Qed.
+
+  (* GC_Mark: never out of fuel, never `% 0`, changes mark bits only *)
+  Lemma gc_mark_ok g ws : Core (slots g) -> (nitems g <> 0 -> nslots g <> 0) ->
+    exists g', gc_mark hashf g ws = Some (Some g') /\ PW (slots g) (slots g') /\ same_rest g g'.
+  Proof.
+    intros Hc Hn. unfold gc_mark. destruct (Nat.eqb_spec (nitems g) 0) as [|Hne].
+    - exists g. split; [reflexivity|]. split; [apply PW_refl|apply same_rest_refl].
+    - assert (Hpw0 : PW (slots g) (mark_roots (slots g))).
+      { rewrite mark_roots_smap. apply PW_smap. intros e. destruct (root e) eqn:Hr; split; simpl; congruence. }
+      destruct (mark_words_ok ws (set_slots g (mark_roots (slots g)))) as [g' [H [Hpw Hs]]].
+      + simpl. eapply Core_PW; eauto.
+      + unfold nslots in *. simpl. rewrite (PW_length _ _ Hpw0). auto.
+      + exists g'. split; [exact H|]. split; [eapply PW_trans; eauto|exact Hs].
+  Qed.
+
+  (* ---------------------------------------------------------------- 4. compaction loop *)
+  Definition keeper (e : gentry) : bool := marked e || root e.
+
+  Lemma Core_UQ_same l x y : Core l -> Holds l x -> Holds l y -> ptr x = ptr y -> x = y.
+  Proof.
+    intros [_ [_ Huq]] [i [h Hi]] [j [h' Hj]] Hp.
+    assert (i = j) by (eapply Huq; eauto). subst j. congruence.
+  Qed.
+
+  Definition pend_of (rm : list gentry) : list (option N) := map (fun e => Some (ptr e)) rm.
+  Definition reclaim_evs (rm : list gentry) : list event := map EvReclaim (rev (map ptr rm)).
+
+  Lemma sweep_loop_ok : forall f (l : list gslot) i nit pl ev,
+    Core l -> occupied l < length l ->
+    (forall s h e, s < i -> at_ l s = Some (h, e) -> keeper e = true) ->
+    (length l - i) + occupied l < f ->
+    exists l' rm,
+      sweep_loop f l i nit pl ev = Some (l', nit - length rm, pl ++ pend_of rm, reclaim_evs rm ++ ev) /\
+      Core l' /\ length l' = length l /\
+      (forall x, Holds l' x <-> Holds l x /\ keeper x = true) /\
+      (forall x, In x rm <-> Holds l x /\ keeper x = false) /\
+      occupied l' + length rm = occupied l.
+  Proof.
+    induction f as [|f IH]; intros l i nit pl ev Hc Hocc Hinv Hf; [lia|].
+    cbn [sweep_loop]. destruct (Nat.leb_spec (length l) i) as [Hge|Hlt].
+    - exists l, []. cbn [length pend_of reclaim_evs map rev app]. rewrite Nat.sub_0_r, app_nil_r.
+      split; [reflexivity|]. split; [assumption|]. split; [reflexivity|]. split; [|split; [|lia]].
+      + intros x. split; [|tauto]. intros Hx. split; [assumption|].
+        destruct Hx as [s [h Hs]]. apply (Hinv s h x); [|assumption].
+        pose proof (at_some_lt _ _ _ _ Hs). lia.
+      + intros x. split; [intros []|]. intros [[s [h Hs]] Hk].
+        rewrite (Hinv s h x) in Hk; [discriminate| |assumption]. pose proof (at_some_lt _ _ _ _ Hs). lia.
+    - assert (Hadv : (forall h e, at_ l i = Some (h, e) -> keeper e = true) ->
+        exists l' rm,
+          sweep_loop f l (S i) nit pl ev = Some (l', nit - length rm, pl ++ pend_of rm, reclaim_evs rm ++ ev) /\
+          Core l' /\ length l' = length l /\
+          (forall x, Holds l' x <-> Holds l x /\ keeper x = true) /\
+          (forall x, In x rm <-> Holds l x /\ keeper x = false) /\
+          occupied l' + length rm = occupied l).
+      { intros Hk. apply IH; auto; [|lia].
+        intros s h e Hs Hat. destruct (Nat.eq_dec s i) as [->|]; [eapply Hk; eauto|].
+        apply (Hinv s h e); [lia|assumption]. }
+      destruct (at_ l i) as [[h e]|] eqn:Hat.
+      + destruct (marked e) eqn:Hm.
+        { apply Hadv. intros h0 e0 Heq. injection Heq as <- <-. unfold keeper. rewrite Hm. reflexivity. }
+        destruct (root e) eqn:Hr; cbn [negb].
+        { apply Hadv. intros h0 e0 Heq. injection Heq as <- <-. unfold keeper. rewrite Hr. apply orb_true_r. }
+        assert (Hke : keeper e = false) by (unfold keeper; rewrite Hm, Hr; reflexivity).
+        destruct (delete_at_spec N gentry ptr swap swap_le _ l i h e Hc Hat Hocc)
+          as [l1 [Hd [Hc1 [Hlen1 [Hh1 Ho1]]]]].
+        unfold rh_delete. rewrite Hd.
+        assert (Hc1' : Core l1) by (unfold Core; rewrite Hlen1; exact Hc1).
+        destruct (IH l1 i (pred nit) (pl ++ [Some (ptr e)]) (EvReclaim (ptr e) :: ev)) as [l' [rm [Hs [Hc' [Hlen' [Hh' [Hrm' Ho']]]]]]]; auto.
+        * lia.
+        * intros s h0 e0 Hs Hat0.
+          destruct (delete_at_from l i h e l1 Hat Hocc Hd s (h0, e0) Hat0) as [[Hne Ho]|[Hne Ho]].
+          -- apply (Hinv s h0 e0); assumption.
+          -- rewrite nxt_eq in Hne, Ho by lia.
+             destruct (Nat.eqb_spec (S s) (length l)) as [|_]; [lia|].
+             apply (Hinv (S s) h0 e0); [lia|assumption].
+        * lia.
+        * exists l', (e :: rm). split.
+          { rewrite Hs. f_equal. f_equal; [f_equal; [f_equal|]|].
+            - cbn [length]. lia.
+            - unfold pend_of. cbn [map]. rewrite <- app_assoc. reflexivity.
+            - unfold reclaim_evs. cbn [map rev]. rewrite map_app. cbn [map]. rewrite <- app_assoc. reflexivity. }
+          split; [exact Hc'|]. split; [lia|]. split; [|split].
+          -- intros x. rewrite Hh', Hh1. split; [tauto|]. intros [Hx Hk]. split; [split; [assumption|]|assumption].
+             intros Hp. assert (x = e) by (apply (Core_UQ_same l x e Hc Hx); [exists i, h; exact Hat|exact Hp]). subst x. congruence.
+          -- intros x. cbn [In]. rewrite Hrm', Hh1. split.
+             ++ intros [<-|[[Hx _] Hk]]; [split; [exists i, h; assumption|assumption]|tauto].
+             ++ intros [Hx Hk]. destruct (N.eq_dec (ptr x) (ptr e)) as [Hp|Hp].
+                ** left. symmetry. apply (Core_UQ_same l x e Hc Hx); [exists i, h; exact Hat|exact Hp].
+                ** right. tauto.
+          -- cbn [length]. lia.
+      + apply Hadv. intros h e Heq. discriminate.
+  Qed.
+
+  (* ---------------------------------------------------------------- 5. the invariant *)
+  Definition Reg (g : gc) : N -> bool -> Prop := Regs (slots g).
+
+  Definition HAbsent (l : list gslot) (q : N) : Prop := forall e, Holds l e -> ptr e <> q.
+
+  Lemma HAbsent_Absent l q : HAbsent l q <-> Absent l q.
+  Proof.
+    split.
+    - intros H i h e Hat. apply H. exists i, h. assumption.
+    - intros H e [i [h Hat]]. eapply H; eauto.
+  Qed.
+
+  (* everything but "marks are clear": this is what holds between GC_Mark and the end of the
+     compaction loop *)
+  Record InvM (g : gc) : Prop := mkInvM {
+    inv_core : Core (slots g);
+    inv_count : nitems g = occupied (slots g);
+    inv_room : nslots g = 0 \/ nitems g < nslots g;
+    inv_bounds : forall e, Holds (slots g) e -> (minptr g <= ptr e <= maxptr g)%N;
+    inv_pend : forall q, In (Some q) (pending g) -> HAbsent (slots g) q;
+    inv_led : forall q s, Reg g q s <-> led (evs g) q s
+  }.
+
+  Definition Clear (l : list gslot) : Prop := forall e, Holds l e -> marked e = false.
+
+  Definition Inv (g : gc) : Prop := InvM g /\ Clear (slots g).
+
+  Definition Quiet (g : gc) : Prop := pending g = [].
+
+  Lemma Inv_init : Inv gc_init /\ Quiet gc_init.
+  Proof.
+    split; [|reflexivity]. split; [constructor|]; simpl.
+    - apply (core_repeat N gentry ptr _ 0).
+    - reflexivity.
+    - left. reflexivity.
+    - intros e [i [h H]]. destruct i; discriminate.
+    - intros q [].
+    - intros q s. split; [|intros []]. intros [e [[i [h H]] _]]. destruct i; discriminate.
+    - intros e [i [h H]]. destruct i; discriminate.
+  Qed.
+
+  (* each object once, count right *)
+  Lemma Inv_nodup g : InvM g -> NoDup (map ptr (entries (slots g))) /\ nitems g = length (entries (slots g)).
+  Proof.
+    intros H. split; [|apply (inv_count g H)].
+    destruct (inv_core g H) as [_ [_ Huq]]. apply (UQ_NoDup N gentry ptr). exact Huq.
+  Qed.
+
+  Lemma Holds_smap f l x : Holds (smap f l) x <-> exists e, Holds l e /\ x = f e.
+  Proof.
+    split.
+    - intros [i [h Hat]]. rewrite at_smap in Hat. destruct (at_ l i) as [[h0 e]|] eqn:H0; [|discriminate].
+      injection Hat as <- <-. exists e. split; [exists i, h0; assumption|reflexivity].
+    - intros [e [[i [h Hat]] ->]]. exists i, h. rewrite at_smap, Hat. reflexivity.
+  Qed.
+
+  Lemma clear_id l : Clear l -> clear_marks l = l.
+  Proof.
+    induction l as [|s l IH]; intros Hc; [reflexivity|]. simpl. f_equal.
+    - destruct s as [[h e]|]; [|reflexivity]. simpl.
+      assert (Hm : marked e = false) by (apply Hc; exists 0, h; reflexivity).
+      destruct e as [p r m]. simpl in Hm. subst m. reflexivity.
+    - apply IH. intros e [i [h Hat]]. apply Hc. exists (S i), h. exact Hat.
+  Qed.
+
+  Lemma Clear_clear_marks l : Clear (clear_marks l).
+  Proof.
+    intros x Hx. rewrite clear_marks_smap in Hx. apply Holds_smap in Hx. destruct Hx as [e [_ ->]]. reflexivity.
+  Qed.
+
+  Lemma PW_clear_marks l : PW l (clear_marks l).
+  Proof. rewrite clear_marks_smap. apply PW_smap. intros e; split; reflexivity. Qed.
+
+  (* transfer of the invariant along a position-wise equal slot array *)
+  Lemma InvM_PW g g' : InvM g -> PW (slots g) (slots g') -> same_rest g g' -> InvM g'.
+  Proof.
+    intros H Hpw [Hn [Hm [Hlo [Hhi [Hr [Hp He]]]]]]. constructor.
+    - eapply Core_PW; eauto. apply (inv_core g H).
+    - rewrite Hn, (PW_occupied _ _ Hpw). apply (inv_count g H).
+    - unfold nslots. rewrite Hn, (PW_length _ _ Hpw). apply (inv_room g H).
+    - intros e He'. destruct (PW_holds _ _ _ Hpw He') as [x [Hx [Hpx _]]]. rewrite Hlo, Hhi, <- Hpx.
+      apply (inv_bounds g H). assumption.
+    - intros q Hq e He'. destruct (PW_holds _ _ _ Hpw He') as [x [Hx [Hpx _]]]. rewrite <- Hpx.
+      rewrite Hp in Hq. apply (inv_pend g H q Hq). assumption.
+    - intros q s. unfold Reg. rewrite (PW_regs _ _ q s Hpw), He. apply (inv_led g H).
+  Qed.
+
+  (* ---------------------------------------------------------------- rehash / resize *)
+  Lemma g_rehash_ok g n : Core (slots g) -> Clear (slots g) -> occupied (slots g) <= n -> 0 < n ->
+    exists l', g_rehash hashf swap g n = Some (set_slots g l') /\ Core l' /\ length l' = n /\
+      (forall x, Holds l' x <-> Holds (slots g) x) /\ occupied l' = occupied (slots g).
+  Proof.
+    intros Hc Hcl Hocc Hn. unfold g_rehash, rh_rehash. rewrite (clear_id _ Hcl).
+    destruct Hc as [HL [Hwf Huq]].
+    destruct (rehash_spec N gentry N.eqb ptr swap (fun old _ => old) N.eqb_eq swap_le swap_ge
+                (fun p => home p n) home (slots g) n Huq) as [l' [Hr [Hc' [Hlen [Hh Ho]]]]].
+    - reflexivity.
+    - intros k. apply home_lt. assumption.
+    - assumption.
+    - exists l'. rewrite Hr. split; [reflexivity|]. split; [unfold Core; rewrite Hlen; exact Hc'|]. auto.
+  Qed.
+
+  (* changing the slot array for one with the same entries keeps the invariant *)
+  Lemma Inv_same_entries g l' : Inv g -> Core l' ->
+    (forall x, Holds l' x <-> Holds (slots g) x) -> occupied l' = occupied (slots g) ->
+    (length l' = 0 \/ nitems g < length l') -> Inv (set_slots g l').
+  Proof.
+    intros [H Hcl] Hc Hh Ho Hroom. split; [constructor|]; simpl.
+    - assumption.
+    - rewrite Ho. apply (inv_count g H).
+    - exact Hroom.
+    - intros e He. apply (inv_bounds g H). apply Hh. assumption.
+    - intros q Hq e He. apply (inv_pend g H q Hq). apply Hh. assumption.
+    - intros q s. rewrite <- (inv_led g H q s). unfold Reg, Regs. simpl.
+      split; intros [e [He Hpr]]; exists e; (split; [apply Hh; assumption|assumption]).
+    - intros e He. apply Hcl. apply Hh. assumption.
+  Qed.
+
+  Lemma resize_less_ok g : Inv g ->
+    exists l', resize_less hashf swap primes num den g = Some (set_slots g l') /\ Inv (set_slots g l').
+  Proof.
+    intros Hi. pose proof Hi as [H Hcl]. unfold resize_less.
+    destruct (Nat.ltb_spec (ideal (nitems g)) (nslots g)) as [Hlt|Hge].
+    - destruct (g_rehash_ok g (ideal (nitems g))) as [l' [Hr [Hc' [Hlen [Hh Ho]]]]].
+      + apply (inv_core g H).
+      + assumption.
+      + rewrite <- (inv_count g H). pose proof (ideal_gt (nitems g)). unfold RegistryModel.ideal. lia.
+      + pose proof (ideal_gt (nitems g)). unfold RegistryModel.ideal. lia.
+      + exists l'. split; [exact Hr|]. apply Inv_same_entries; auto.
+        right. rewrite Hlen. apply ideal_gt.
+    - exists (slots g). destruct g; simpl. split; [reflexivity|exact Hi].
+  Qed.
+
+  Definition issome (x : option N) : bool := match x with Some _ => true | None => false end.
+  Definition cnt (pl : list (option N)) : nat := length (filter issome pl).
+  (* what bounds the nesting of destructor-issued removals *)
+  Definition measure (g : gc) : nat := nitems g + cnt (pending g).
+
+  Lemma Inv_new_mitems g : Inv g -> Inv (new_mitems g).
+  Proof. intros [[]]. split; [constructor|]; assumption. Qed.
+
+  Lemma Inv_log_fin g q : Inv g -> Inv (log g (EvFin q)).
+  Proof. intros [[]]. split; [constructor|]; assumption. Qed.
+
+  (* ---------------------------------------------------------------- pending list *)
+  Lemma null_out_in p pl q : In (Some q) (null_out p pl) -> In (Some q) pl.
+  Proof.
+    induction pl as [|x pl IH]; simpl; [tauto|]. intros [H|H]; [|right; auto].
+    destruct x as [y|]; [|discriminate]. destruct (N.eqb y p); [discriminate|]. left. assumption.
+  Qed.
+
+  Lemma null_out_cnt p pl : cnt (null_out p pl) <= cnt pl.
+  Proof.
+    unfold cnt. induction pl as [|x pl IH]; simpl; [lia|].
+    destruct x as [y|]; simpl; [|assumption]. destruct (N.eqb y p); simpl; lia.
+  Qed.
+
+  Lemma null_out_cnt_hit p pl : is_pending p pl = true -> cnt (null_out p pl) < cnt pl.
+  Proof.
+    unfold cnt. induction pl as [|x pl IH]; simpl; [discriminate|].
+    destruct x as [y|]; simpl.
+    - destruct (N.eqb y p) eqn:He; simpl.
+      + intros _. pose proof (null_out_cnt p pl). unfold cnt in *. lia.
+      + intros H. apply IH in H. lia.
+    - assumption.
+  Qed.
+
+  Lemma is_pending_in p pl : is_pending p pl = true -> In (Some p) pl.
+  Proof.
+    induction pl as [|x pl IH]; simpl; [discriminate|].
+    destruct x as [y|]; simpl; [|intros H; right; auto].
+    destruct (N.eqb_spec y p) as [->|]; simpl; [left; reflexivity|intros H; right; auto].
+  Qed.
+
+  Lemma upd_opt_in k pl q : In (Some q) (upd_opt k pl) -> In (Some q) pl.
+  Proof.
+    revert k. induction pl as [|x pl IH]; intros [|k]; simpl; try tauto.
+    - intros [H|H]; [discriminate|right; assumption].
+    - intros [H|H]; [left; assumption|right; eauto].
+  Qed.
+
+  Lemma upd_opt_cnt k pl : cnt (upd_opt k pl) <= cnt pl.
+  Proof.
+    unfold cnt. revert k. induction pl as [|x pl IH]; intros [|k]; simpl; try lia.
+    - destruct x; simpl; lia.
+    - specialize (IH k). destruct x; simpl; lia.
+  Qed.
+
+  (* ---------------------------------------------------------------- invariant-keeping updates *)
+  Lemma Inv_fields g g' : Inv g -> slots g' = slots g -> nitems g' = nitems g ->
+    minptr g' = minptr g -> maxptr g' = maxptr g -> evs g' = evs g ->
+    (forall q, In (Some q) (pending g') -> In (Some q) (pending g)) -> Inv g'.
+  Proof.
+    intros [H Hcl] Hs Hn Hlo Hhi He Hp. unfold Inv, Clear. rewrite Hs. split; [constructor|assumption].
+    - rewrite Hs. apply (inv_core g H).
+    - rewrite Hs, Hn. apply (inv_count g H).
+    - unfold nslots. rewrite Hs, Hn. apply (inv_room g H).
+    - rewrite Hs, Hlo, Hhi. apply (inv_bounds g H).
+    - rewrite Hs. intros q Hq. apply (inv_pend g H q). auto.
+    - unfold Reg. rewrite Hs, He. apply (inv_led g H).
+  Qed.
+
+  (* GC_Rem of an address that is not in the table: only the log grows *)
+  Lemma Inv_rem_absent g g' p : Inv g -> HAbsent (slots g) p -> slots g' = slots g -> nitems g' = nitems g ->
+    minptr g' = minptr g -> maxptr g' = maxptr g -> evs g' = EvRem p :: evs g ->
+    (forall q, In (Some q) (pending g') -> In (Some q) (pending g)) -> Inv g'.
+  Proof.
+    intros [H Hcl] Ha Hs Hn Hlo Hhi He Hp. unfold Inv, Clear. rewrite Hs. split; [constructor|assumption].
+    - rewrite Hs. apply (inv_core g H).
+    - rewrite Hs, Hn. apply (inv_count g H).
+    - unfold nslots. rewrite Hs, Hn. apply (inv_room g H).
+    - rewrite Hs, Hlo, Hhi. apply (inv_bounds g H).
+    - rewrite Hs. intros q Hq. apply (inv_pend g H q). auto.
+    - unfold Reg. rewrite Hs, He. intros q s. cbn [led]. rewrite <- (inv_led g H q s). split; [|tauto].
+      intros Hr. split; [assumption|]. destruct Hr as [e [He' [Hpe _]]]. rewrite <- Hpe. apply Ha. assumption.
+  Qed.
+
+  (* GC_Rem_Ptr found the address at a slot and shifted the cluster back *)
+  Lemma Inv_rem_found g g' p l1 : Inv g -> Core l1 -> length l1 = length (slots g) ->
+    (forall x, Holds l1 x <-> Holds (slots g) x /\ ptr x <> p) -> S (occupied l1) = occupied (slots g) ->
+    slots g' = l1 -> nitems g' = pred (nitems g) ->
+    minptr g' = minptr g -> maxptr g' = maxptr g -> evs g' = EvRem p :: evs g ->
+    (forall q, In (Some q) (pending g') -> In (Some q) (pending g)) -> Inv g'.
+  Proof.
+    intros [H Hcl] Hc Hlen Hh Ho Hs Hn Hlo Hhi He Hp. unfold Inv, Clear. rewrite Hs.
+    pose proof (inv_count g H) as Hcnt. pose proof (inv_room g H) as Hroom. unfold nslots in Hroom.
+    split; [constructor|].
+    - rewrite Hs. assumption.
+    - rewrite Hs, Hn. lia.
+    - unfold nslots. rewrite Hs, Hn, Hlen. lia.
+    - rewrite Hs, Hlo, Hhi. intros e He'. apply (inv_bounds g H). apply Hh. assumption.
+    - rewrite Hs. intros q Hq e He'. apply (inv_pend g H q); auto. apply Hh. assumption.
+    - unfold Reg. rewrite Hs, He. intros q s. cbn [led]. rewrite <- (inv_led g H q s). unfold Reg, Regs. split.
+      + intros [e [He' [Hpe Hre]]]. apply Hh in He'. split; [exists e; tauto|]. rewrite <- Hpe. tauto.
+      + intros [[e [He' [Hpe Hre]]] Hne]. exists e. split; [apply Hh; split; [assumption|congruence]|auto].
+    - intros e He'. apply Hcl. apply Hh. assumption.
+  Qed.
+
+  (* ---------------------------------------------------------------- removal, nested *)
+  Local Notation gc_rem' := (gc_rem hashf swap primes num den owns rem_fin).
+
+  Definition rem_good (f : nat) : Prop := forall g p, Inv g -> measure g < f ->
+    exists g', gc_rem' f g p = Some g' /\ Inv g' /\ measure g' <= measure g.
+
+  Lemma fold_rem_ok f : rem_good f -> forall ts g, Inv g -> measure g < f ->
+    exists g', fold_left (fun og t => match og with Some g1 => gc_rem' f g1 t | None => None end) ts (Some g) = Some g'
+               /\ Inv g' /\ measure g' <= measure g.
+  Proof.
+    intros Hg. induction ts as [|t ts IH]; intros g Hi Hm; simpl.
+    - exists g. split; [reflexivity|]. split; [assumption|lia].
+    - destruct (Hg g t Hi Hm) as [g1 [H1 [Hi1 Hm1]]]. rewrite H1.
+      destruct (IH g1 Hi1 ltac:(lia)) as [g2 [H2 [Hi2 Hm2]]]. exists g2. split; [exact H2|]. split; [assumption|lia].
+  Qed.
+
+  Lemma finalise_ok f : rem_good f -> forall g q, Inv g -> measure g < f ->
+    exists g', finalise_with owns (gc_rem' f) g q = Some g' /\ Inv g' /\ measure g' <= measure g.
+  Proof.
+    intros Hg g q Hi Hm. unfold finalise_with.
+    apply (fold_rem_ok f Hg (owns q) (log g (EvFin q))); [apply Inv_log_fin; assumption|exact Hm].
+  Qed.
+
+  (* GC_Rem_Ptr, after the event has been logged *)
+  Definition rem_ptr (f : nat) (g : gc) (p : N) : option gc :=
+    if nslots g =? 0 then Some g else
+    let hit := is_pending p (pending g) in
+    let g0 := set_pending g (null_out p (pending g)) in
+    if hit && rem_fin then finalise_with owns (gc_rem' f) g0 p
+    else
+      match rh_find (slots g0) (home p (nslots g0)) p with
+      | None => None
+      | Some None => Some g0
+      | Some (Some i) =>
+        match rh_delete (slots g0) i with
+        | None => None
+        | Some sl => finalise_with owns (gc_rem' f) (set_nitems (set_slots g0 sl) (pred (nitems g0))) p
+        end
+      end.
+
+  Lemma gc_rem_S f g p : gc_rem' (S f) g p =
+    if negb (running g) then Some g else
+    match rem_ptr f (log g (EvRem p)) p with
+    | None => None
+    | Some g1 => match resize_less hashf swap primes num den g1 with
+                 | None => None
+                 | Some g2 => Some (new_mitems g2)
+                 end
+    end.
+  Proof. reflexivity. Qed.
+
+  Lemma rem_ptr_ok f : rem_good f -> forall g p, Inv g -> measure g < S f ->
+    exists g2, rem_ptr f (log g (EvRem p)) p = Some g2 /\ Inv g2 /\ measure g2 <= measure g.
+  Proof.
+    intros Hg g p Hi Hm. pose proof Hi as [H Hcl]. unfold rem_ptr.
+    change (nslots (log g (EvRem p))) with (nslots g).
+    change (pending (log g (EvRem p))) with (pending g).
+    destruct (Nat.eqb_spec (nslots g) 0) as [Hz|Hnz].
+    - exists (log g (EvRem p)). split; [reflexivity|]. split; [|unfold measure; simpl; lia].
+      apply (Inv_rem_absent g _ p Hi); try reflexivity; [|auto].
+      intros e [i [h Hat]]. pose proof (at_some_lt _ _ _ _ Hat). unfold nslots in Hz. lia.
+    - set (g0 := set_pending (log g (EvRem p)) (null_out p (pending g))).
+      assert (Hm0 : measure g0 <= measure g) by (unfold measure; simpl; pose proof (null_out_cnt p (pending g)); lia).
+      assert (Habs0 : HAbsent (slots g) p -> Inv g0).
+      { intros Ha. apply (Inv_rem_absent g g0 p Hi Ha); try reflexivity. intros q. simpl. apply null_out_in. }
+      cbv zeta. destruct (is_pending p (pending g) && rem_fin) eqn:Hhit.
+      + apply andb_prop in Hhit. destruct Hhit as [Hhit _].
+        assert (Ha : HAbsent (slots g) p) by (apply (inv_pend g H); apply is_pending_in; assumption).
+        assert (Hm1 : measure g0 < f).
+        { unfold measure; simpl. pose proof (null_out_cnt_hit p (pending g) Hhit). unfold measure in Hm. lia. }
+        destruct (finalise_ok f Hg g0 p (Habs0 Ha) Hm1) as [g2 [H2 [Hi2 Hm2]]].
+        exists g2. split; [exact H2|]. split; [assumption|lia].
+      + change (slots g0) with (slots g). change (nslots g0) with (nslots g). change (nitems g0) with (nitems g).
+        destruct (find_spec N gentry N.eqb ptr N.eqb_eq (fun q => home q (length (slots g))) (slots g) p (inv_core g H))
+          as [r [Hr Hres]].
+        { apply home_lt. unfold nslots in Hnz. lia. }
+        unfold rh_find, nslots. rewrite Hr. destruct r as [i|].
+        * destruct Hres as [e [Hat Hpe]].
+          assert (Hocc : occupied (slots g) < length (slots g)).
+          { pose proof (inv_room g H) as Hroom. pose proof (inv_count g H). unfold nslots in *. lia. }
+          destruct (delete_at_spec N gentry ptr swap swap_le _ (slots g) i _ e (inv_core g H) Hat Hocc)
+            as [l1 [Hd [Hc1 [Hlen1 [Hh1 Ho1]]]]].
+          unfold rh_delete. rewrite Hd.
+          set (g1 := set_nitems (set_slots g0 l1) (pred (nitems g))).
+          assert (Hi1 : Inv g1).
+          { apply (Inv_rem_found g g1 p l1 Hi); try reflexivity; auto.
+            - unfold Core. rewrite Hlen1. exact Hc1.
+            - intros x. rewrite Hh1, Hpe. tauto.
+            - intros q. simpl. apply null_out_in. }
+          assert (Hm1 : measure g1 < f).
+          { unfold measure; simpl. pose proof (null_out_cnt p (pending g)). pose proof (inv_count g H).
+            unfold measure in Hm. lia. }
+          destruct (finalise_ok f Hg g1 p Hi1 Hm1) as [g2 [H2 [Hi2 Hm2]]].
+          exists g2. split; [exact H2|]. split; [assumption|].
+          assert (measure g1 <= measure g); [|lia].
+          unfold measure; simpl. pose proof (null_out_cnt p (pending g)). lia.
+        * exists g0. split; [reflexivity|]. split; [|assumption]. apply Habs0. apply HAbsent_Absent. assumption.
+  Qed.
+
+  Theorem gc_rem_ok : forall f, rem_good f.
+  Proof.
+    induction f as [|f IH]; intros g p Hi Hm; [lia|]. rewrite gc_rem_S.
+    destruct (running g); cbn [negb].
+    - destruct (rem_ptr_ok f IH g p Hi Hm) as [g1 [H1 [Hi1 Hm1]]]. rewrite H1.
+      destruct (resize_less_ok g1 Hi1) as [l' [Hr Hi2]]. rewrite Hr.
+      eexists. split; [reflexivity|]. split; [apply Inv_new_mitems; assumption|].
+      unfold measure in *. simpl. lia.
+    - exists g. split; [reflexivity|]. split; [assumption|lia].
+  Qed.
